@@ -1,18 +1,19 @@
 """C02 — rows received from peers are stored only if their author had the right (validation kernel).
-Entry points from MIR: RoomAuthorisations::validate_node, validate_edge_deletions, validate_node_deletions."""
+Entry points from MIR: RoomAuthorisations::validate_node, validate_edge_deletions, validate_node_deletions, and the AddEdges arm of
+AuthorisationService::process_message (the only validation received references get)."""
 import itertools
 import z3
 from mirsym.interp import *
 from mirsym.values import *
-from mirsym.models import deref
+from mirsym.models import deref, A
 from .lib import *
 from .c01 import KEYS, ROOMS, ENTS, SPECS, SYS_ENTS
 
-REQUIRED_WITNESSES = ['accepted', 'rejected', 'deletion-accepted', 'deletion-rejected']
+REQUIRED_WITNESSES = ['accepted', 'rejected', 'deletion-accepted', 'deletion-rejected', 'edge-forwarded', 'edge-refused']
 BOUNDS = {
     'quick': 'room configurations as C01 quick; one incoming node with every combination of node present/absent, entity name present/absent, '
              'local version none / same room / other room, previous author none / any; batches of <= 2 deletion records with stored author none / any; '
-             'dates, flags, sizes, ids unconstrained',
+             'dates, flags, sizes, ids unconstrained; batches of 1-2 received references (author, entity name, date, source row symbolic) for a symbolic room',
     'thorough': 'as quick with the 3 room configurations of C01 thorough and batches of <= 3 deletion records',
 }
 ASSUMPTIONS = [
@@ -34,6 +35,8 @@ def shapes(tier):
             for n in range(1, nmax + 1):
                 for cmb in itertools.product((0, 1, 2), repeat=n):   # 0: no entity name, 1: stored author unknown, 2: stored author known
                     out.append(dict(part='deletions', spec=i, kind=kind, rows=cmb))
+        for n in (1, 2):
+            out.append(dict(part='edges', spec=i, n=n))
     return out
 
 
@@ -272,9 +275,252 @@ def scenario_deletions(ctx, m, kind, info):
     return sc
 
 
+SRC_ROOM = z3.Function('room_of_stored_row', A, A)     # what the database knows about the source row of a reference
+SRC_ENTITY = z3.Function('entity_of_stored_row', A, A)
+SRC_EXISTS = z3.Function('row_is_stored', A, z3.BoolSort())
+
+
+def explore_edges(ctx, shape, tier, report):
+    """the whole ingestion of received references: GraphDatabase::add_edges (name lookup, and whatever it asks the reader connection)
+    -> AuthorisationMessage::AddEdges -> the AddEdges arm of process_message -> what reaches the writer"""
+    import re as _re
+    from mirsym.models import SegmentEnd
+    spec1, spec2 = SPECS[tier][shape['spec']]
+    pm = ctx.method('AuthorisationService', 'process_message')
+    add_edges = ctx.method('GraphDatabase', 'add_edges')
+    events = []
+    hooks = {}
+
+    def writer_send(ctx_, args):
+        events.append(('write', args[1]))
+        return Opaque('ready-future', ok(UNIT))
+    hooks[ctx.method('BufferedDatabaseWriter', 'send').name] = writer_send
+
+    def auth_send(ctx_, args):
+        events.append(('auth', args[1]))
+        return Opaque('ready-future', ok(UNIT))
+    hooks[ctx.method('AuthorisationService', 'send').name] = auth_send
+
+    def auth_send_blocking(ctx_, args):
+        events.append(('auth', args[1]))
+        return ok(UNIT)
+    hooks[ctx.method('AuthorisationService', 'send_blocking').name] = auth_send_blocking
+
+    def reader_send_async(ctx_, args):
+        # the closure handed to the reader pool is run at once on the modelled connection
+        clo = args[1]
+        ctx_.call_value(clo, [Ref(Cell(Opaque('connection')))])
+        return Opaque('ready-future', ok(UNIT))
+    hooks[ctx.method('DatabaseReader', 'send_async').name] = reader_send_async
+
+    def name_for(ctx_, args):
+        short = deref(args[1])
+        ent = st['entity_of_short'].get(id(short))
+        if ent is None:
+            for k, v in st['shorts']:
+                if s_eq(k, short) is True:
+                    ent = v
+        if ent is None:
+            raise Unsupported('name_for on a short name the driver did not supply')
+        if ent is False:
+            return none()
+        return some(clone_val(ent))
+    hooks[ctx.method('DataModel', 'name_for').name] = name_for
+    st = {}
+
+    # the reader connection: one kind of statement is understood, an existence test on _node by columns
+    def prepare(ctx_, args, ci, dt):
+        sql = deref(args[1])
+        text = ' '.join(sql.lit.decode().split()) if isinstance(sql, S) and sql.lit is not None else ''
+        m_ = _re.match(r'SELECT .* FROM _node WHERE (.*)$', text, _re.I)
+        if not m_:
+            raise Unsupported('reader SQL not modelled: %s' % text[:120])
+        cols = [c.split('=')[0].strip() for c in _re.split(r'\s+AND\s+', m_.group(1), flags=_re.I)]
+        if any(c not in ('id', '_entity', 'room_id') for c in cols):
+            raise Unsupported('reader SQL condition not modelled: %s' % text[:120])
+        st.setdefault('sql', []).append(text)
+        return ok(Opaque('statement', cols))
+
+    def query_row(ctx_, args, ci, dt):
+        cols = deref(args[0]).data
+        params = args[1]
+        vals = [deref(c.v) for c in params.fields] if isinstance(params, Struct) else [deref(params)]
+        if len(vals) != len(cols):
+            raise Unsupported('parameter count does not match the statement')
+        byc = dict(zip(cols, vals))
+        if 'id' not in byc:
+            raise Unsupported('existence test without the row id')
+        ida = byc['id'].as_atom()
+        cond = [SRC_EXISTS(ida)]
+        if 'room_id' in byc:
+            cond.append(SRC_ROOM(ida) == byc['room_id'].as_atom())
+        if '_entity' in byc:
+            cond.append(SRC_ENTITY(ida) == byc['_entity'].as_atom())
+        if ctx_.branch(z3.And(*cond)):
+            row = Ref(Cell(Opaque('row', [Int(64, True, 1)])))
+            return ctx_.call_value(args[2], [row])
+        return err(Enum('Error', -1, 'QueryReturnedNoRows', []))
+
+    def row_get(ctx_, args, ci, dt):
+        row = deref(args[0]).data
+        return ok(clone_val(row[ctx_.concretize_int(args[1], 'column')]))
+
+    def optional(ctx_, args, ci, dt):
+        r = args[0]
+        if r.variant == 0:
+            return ok(some(r.fields[0].v))
+        e = r.fields[0].v
+        if isinstance(e, Enum) and e.vname == 'QueryReturnedNoRows':
+            return ok(none())
+        return r
+    stubs = {'Connection::prepare_cached': prepare, 'Connection::prepare': prepare, 'CachedStatement::query_row': query_row, 'Statement::query_row': query_row,
+             'Row::get': row_get, '<Result as OptionalExtension>::optional': optional, 'OptionalExtension::optional': optional}
+    saved_send = ctx.models.get('Sender::send')
+
+    def reply_send(ctx_, args, ci, dt):
+        events.append(('reply', args[1]))
+        return ok(UNIT)
+
+    def path(ctx):
+        w = World(ctx)
+        del events[:]
+        st.clear()
+        st['entity_of_short'], st['shorts'] = {}, []
+        ctx.node_size_list = []
+        ra, rooms_ev, max_size, owner = mk_state(ctx, w, spec1, spec2)
+        room = w.atom('sync_room', ROOMS, 'uid', n=16)
+        edges, specs = [], []
+        for i in range(shape['n']):
+            author = w.atom('e%d_author' % i, KEYS, 'bytes', n=33)
+            ename = w.atom('e%d_entity' % i, ENTS, 'str')
+            cdate = w.i64('e%d_cdate' % i)
+            src = w.atom('e%d_src' % i, None, 'uid', n=16)
+            short = S(lit='s%d' % i, text=True)
+            st['shorts'].append((short, ename))
+            e = w.edge(src=src, src_entity=short, label=S(lit='L%d' % i, text=True), dest=w.atom('e%d_dest' % i, None, 'uid', n=16), cdate=cdate, author=author)
+            edges.append(e)
+            specs.append(dict(author=author, entity=ename, cdate=cdate, src=src, edge=e, short=short))
+        info = dict(part='edges', shape=shape, rooms=rooms_ev, room=room, specs=specs)
+
+        def label_of(e):
+            return deref(w.field(e, 'Edge', 'label').v).lit      # concrete per received reference: used to attribute what is forwarded
+        try:
+            # stage 1: the database service
+            fields = w.src.struct_fields('GraphDatabase')
+            vals = {f: Opaque('gdb-' + f) for f in fields}
+            vals['graph_database'] = Struct('Database', [Cell(Opaque('reader')), Cell(Opaque('writer'))])
+            vals['auth_service'] = Struct('AuthorisationService', [Cell(Opaque('auth-sender'))])
+            gdb = w.struct('GraphDatabase', **vals)
+            co = ctx.exec_fn(add_edges, [Ref(Cell(gdb)), room, VecV([Cell(x) for x in edges]), Opaque('oneshot-sender')])
+            try:
+                ctx.poll(co)
+            except SegmentEnd:
+                pass
+            msgs = [e for e in events if e[0] == 'auth']
+            if any(e[0] == 'reply' for e in events) and not msgs:
+                report.path(False)
+                report.witness('edge-refused')
+                return
+            if len(msgs) != 1 or msgs[0][1].vname != 'AddEdges':
+                raise Inconclusive('add_edges did not hand exactly one AddEdges message to the authorisation service')
+            # stage 2: the authorisation service
+            co = ctx.exec_fn(pm, [msgs[0][1], Ref(Cell(ra), True), Ref(Cell(Opaque('database-writer'))), Ref(Cell(Opaque('event-service'))), Ref(Cell(Opaque('self-sender')))])
+            try:
+                ctx.poll(co)
+            except SegmentEnd:
+                pass
+        except Panic as p:
+            report.panic(ctx, w, p, info)
+            return
+        writes = [e for e in events if e[0] == 'write']
+        forwarded = []
+        for wv in writes:
+            m_ = wv[1]
+            if isinstance(m_, Enum) and m_.vname == 'Edges':
+                forwarded = [c.v for c in deref(m_.fields[0].v).elems]
+        if any(label_of(f) not in [label_of(sp['edge']) for sp in specs] for f in forwarded):
+            raise Inconclusive('a forwarded reference is not one of the received ones: the driver cannot attribute it')
+        report.path(bool(forwarded))
+        report.witness('edge-forwarded' if forwarded else 'edge-refused')
+        info['forwarded'] = len(forwarded)
+        if len(specs) == 1 and report.want_sample(bool(forwarded)):
+            sp = specs[0]
+            # replayable instances: the name lookup succeeds and the source row exists, in the synchronised room or in another one
+            ms = ctx.check_sat(zand(SRC_EXISTS(sp['src'].as_atom()), SRC_ENTITY(sp['src'].as_atom()) == sp['short'].as_atom()))
+            if ms is not None:
+                ev = lambda t: z3.is_true(ms.eval(zb(t), model_completion=True))
+                sc = dict(kind='received_edge_foreign_source', property='C02',
+                          author_has_right=ev(granted_in(rooms_ev, room, sp['author'], sp['entity'], sp['cdate'], 'self')),
+                          source_in_room=ev(SRC_ROOM(sp['src'].as_atom()) == room.as_atom()), expect=dict(stored=bool(forwarded)))
+                report.sample(sc)
+        for sp in specs:
+            is_fwd = z3.BoolVal(any(label_of(f) == label_of(sp['edge']) for f in forwarded))
+            right = granted_in(rooms_ev, room, sp['author'], sp['entity'], sp['cdate'], 'self')
+            in_room = zand(SRC_EXISTS(sp['src'].as_atom()), SRC_ROOM(sp['src'].as_atom()) == room.as_atom())
+            m = ctx.check_sat(zand(is_fwd, znot(right)))
+            if m is not None:
+                info['culprit'] = sp
+                info['problem'] = 'no-right'
+                report.violation(ctx, m, 'edge-accepted-without-right', info)
+                return
+            m = ctx.check_sat(zand(znot(is_fwd), right, in_room, SRC_ENTITY(sp['src'].as_atom()) == sp['short'].as_atom())) if len(specs) == 1 else None
+            if m is not None:
+                info['culprit'] = sp
+                info['problem'] = 'refused-with-right'
+                report.violation(ctx, m, 'edge-refused-although-granted', info)
+                return
+            # the source row of a stored reference belongs to the room being synchronised
+            m = ctx.check_sat(zand(is_fwd, znot(in_room)))
+            if m is not None:
+                info['culprit'] = sp
+                info['problem'] = 'source-row-in-another-room'
+                report.violation(ctx, m, 'edge-accepted-without-right', info)
+                return
+
+    ctx.call_hooks.update(hooks)
+    ctx.stubs.update(stubs)
+    ctx.models['Sender::send'] = reply_send
+    try:
+        ctx.explore(path)
+    finally:
+        for k in hooks:
+            ctx.call_hooks.pop(k, None)
+        for k in stubs:
+            ctx.stubs.pop(k, None)
+        if saved_send is None:
+            ctx.models.pop('Sender::send', None)
+        else:
+            ctx.models['Sender::send'] = saved_send
+
+
+def scenario_edges(ctx, m, kind, info):
+    c = Concretizer(m)
+    sc = dict(kind='received_edges', property='C02', rooms=[c.room(ev) for ev in info['rooms']], room=c.atom(info['room']),
+              edges=[dict(author=c.atom(sp['author']), entity=c.atom(sp['entity']), cdate=c.int(sp['cdate'])) for sp in info['specs']])
+    if kind == 'panic':
+        sc['expect'] = dict(result='panic')
+        return sc
+    sc['expect'] = dict(forwarded=info.get('forwarded', 0))
+    if kind == 'sample':
+        return sc
+    cu = info['culprit']
+    sc['culprit'] = info['specs'].index(cu)
+    sc['problem'] = info['problem']
+    if info['problem'] == 'source-row-in-another-room':
+        sc['kind'] = 'received_edge_foreign_source'
+        sc['author_has_right'], sc['source_in_room'] = True, False
+        sc['expect'] = dict(stored=True)
+        sc['what'] = ('a received reference is validated against the room being synchronised only (author, entity, date): whether its SOURCE ROW belongs to that room is never '
+                      'looked up, so a member who may write the entity in the synchronised room attaches references to rows of a room it cannot write')
+    else:
+        sc['what'] = 'AddEdges: a received reference is %s' % ('stored although its author lacks the right at its date' if info['problem'] == 'no-right' else 'refused although the author has the right')
+    sc['signature'] = 'edge:%s' % info['problem']
+    return sc
+
+
 def explore(ctx, shape, tier, report):
-    return {'node': explore_node, 'deletions': explore_deletions}[shape['part']](ctx, shape, tier, report)
+    return {'node': explore_node, 'deletions': explore_deletions, 'edges': explore_edges}[shape['part']](ctx, shape, tier, report)
 
 
 def scenario(ctx, m, kind, info):
-    return {'node': scenario_node, 'deletions': scenario_deletions}[info['part']](ctx, m, kind, info)
+    return {'node': scenario_node, 'deletions': scenario_deletions, 'edges': scenario_edges}[info['part']](ctx, m, kind, info)
